@@ -9,3 +9,4 @@ open MtailVerif.C23
 #print axioms opPrec_is_formatter_precedence
 #print axioms formatter_precedence_matches_grammar
 #print axioms source_shape
+#print axioms format_parse_assignment
